@@ -233,8 +233,11 @@ def c_case(case, res):
 def run(ctx):
     ctx.rule = ("chains of 1-4 generated modules over six enzymes; per record 0-4 references drawn from a pool of 3/6/10 "
                 "ids (shared between inputs, sometimes repeated inside a list, sometimes absent), 0-4 features inside, "
-                "outside or across the retained fragment citing 0-3 references; 1-3 consecutive calls; non-trivial = "
-                "the product inherits at least one citing feature")
+                "outside or across the retained fragment citing 0-3 references; 1-3 consecutive calls, a third of the histories "
+                "starting with a call that cannot complete (a module left out) or made while a citing feature holds one more "
+                "citation drawn from sixteen malformed / edge forms; every first call (and failing first call) also run through "
+                "vector.assemble as regenerated from the source, whole product record or exception class compared; "
+                "non-trivial = the product inherits at least one citing feature")
     cases = gen_cases(ctx)
     res = common.run_impl(ctx, "C10", "run_product", cases)
     terms, idx = [], []
